@@ -19,6 +19,11 @@ def one(meta):
         r = subprocess.run([V + "/bin/nvet", "-prop", "all", "-repo", w, "-verif", v], env=ENV, capture_output=True, text=True)
         rules = sorted(set(re.findall(r"^(?:VIOLATION|UNDECIDED): \S+ (\S+) ", r.stdout, re.M)))
         want = m["checks"]["reported_now_by"]
+        if m["checks"].get("known_unreported"):
+            # kept for the record: no structural necessary condition separates it
+            # from the pinned tree (see NOTES / DESIGN); flag it if that changes
+            own = [x for x in rules if x.startswith(m["breaks_property"])]
+            return m["id"], "OK" if not own else "NOW-REPORTED", "known unreported; got %s" % rules
         ok = all(x in rules for x in want) and any(x.startswith(m["breaks_property"]) for x in rules)
         return m["id"], "OK" if ok else "NOT-REPORTED", "want %s got %s" % (want, rules)
     finally:
